@@ -48,6 +48,10 @@ CHECKS = {
    technique="deviation-bounded exhaustive enumeration of the generator catalogue crossed with a spelling alphabet; fixpoint and structural-digest oracles on the real parser+printer, failures bisected to single variants",
    text="Every variant with <=2 (thorough <=3) deviations of the ~100-production catalogue (9k / 88k modules, including constructs LLVM 14 does not know) is written in 4 spellings (plain, every name redundantly quoted, comments and irregular whitespace on every line, reversed top-level order); for each: y=print(parse(x)) must parse, print(parse(y)) must equal y byte for byte, the reflection digests (pointer identity made explicit) of parse(x) and parse(y) must be equal, and the quoted/whitespace spellings must print the same y as the plain one.",
    note="Inputs the parser rejects are outside the quantifier (C01 reports them); numbering spellings (explicit/implicit %N) are explored by C08, literal spellings by C09/C10; no LLVM involved."),
+ "C04": dict(level="model_checking", design="§1 E6, §2 C04",
+   technique="deviation-bounded exhaustive enumeration of the generator catalogue plus 16 reference topologies, parsed in batches by the real translator; reflection walk of the object graph checking pointer identity of every use against the defining lists",
+   text="All variants with <=2 (thorough <=3) deviations of the catalogue, including 16 reference topologies (mutually referring globals, recursion, phi/branch cycles, use before definition in layout order, blockaddress into other functions / of equally named labels / inside metadata / in use-list orders, recursive and mutually recursive types, metadata cycles and forward references, aliases of aliases, shared comdats and attribute groups), are parsed in batches of 40 so that equally named locals of many functions coexist. A reflection walk visits every field of every definition: global-like operands must be pointer-identical to elements of Globals/Aliases/IFuncs/Funcs, block/param/instruction operands to elements of the enclosing function, blockaddress blocks to blocks of the named function, named types to the TypeDefs object, comdats, attribute groups and numbered metadata to the module's definitions; Parent links must agree with containment and no block may lack a terminator.",
+   note="Identity is demanded for named entities, locals, named types, comdats, attribute groups and numbered metadata only (not for interned constants or primitive type singletons); inputs the parser rejects are outside the quantifier."),
 }
 
 NOT_APPLICABLE = {}
